@@ -120,13 +120,13 @@ def run(ctx):
          ("EX_Ti.cfg", pi, 2000), ("EX_Tt.cfg", pt, 1500),
          # the same hub with use_epoll=True: pox.lib.epoll_select.EpollSelect must behave like select()
          ("EX_IO1i.cfg", dict(pi, epoll=True), 2000), ("EX_Q1t.cfg", dict(pt, epoll=True), 1500)]
-  if not quick:
-    exs.append(("EX_Q2i.cfg", pi, 60000))
+  # (two tasks x all 2-op programs is ~3k set-ups and millions of transitions: covered by simulation instead)
   n = 100 if quick else 2500
   sims = [("SIM_A2i.cfg", n, 14, pi, 0), ("SIM_A2t.cfg", n, 14, pt, 0), ("SIM_B3i.cfg", n, 14, pi, 0),
           ("SIM_B3t.cfg", n, 14, pt, 0)]
   if not quick:
-    sims += [("SIM_A2i_deep.cfg", 1500, 40, pi, 5), ("SIM_B3t_deep.cfg", 1500, 40, pt, 6)]
+    sims += [("SIM_A2i_deep.cfg", 1500, 40, pi, 5), ("SIM_B3t_deep.cfg", 1500, 40, pt, 6),
+             ("SIM_A2i.cfg", 4000, 14, dict(pi, epoll=True), 7), ("SIM_A2t.cfg", 4000, 14, pt, 8)]
   # all TLC runs are independent: run them concurrently, then replay
   jobs = [mc_job(ctx, c, cov=a is not None) for c, a in mcs] + [ex_job(ctx, c) for c, _, _ in exs] + \
          [sim_job(ctx, c, num, d, so) for c, num, d, _, so in sims]
